@@ -26,7 +26,17 @@ func fontFromCase(f []string) (*type1.Font, bool, type1.FileFormat) {
 			format = ff
 		}
 	}
-	return randFont(newRng(seed), integer), integer, format
+	font := randFont(newRng(seed), integer)
+	if f[2] == "bigint" {
+		// many glyphs: the encrypted section is longer than 64 kB (length fields above 16 bits)
+		integer = true
+		r := newRng(seed)
+		font = randFont(r, true)
+		for i := 0; i < 1800; i++ {
+			font.Glyphs[fmt.Sprintf("g%04d", i)] = &type1.Glyph{Cmds: wellFormedPath(r, true), HStem: randStems(r), VStem: randStems(r), WidthX: float64(r.rangeInt(0, 2000))}
+		}
+	}
+	return font, integer, format
 }
 
 // ---------------------------------------------------------------- C09
@@ -223,9 +233,46 @@ func compareSpecFont(font *type1.Font, sf *specFont, integer bool) string {
 	return ""
 }
 
+// t1wLine emits the model-comparison line for the writer: the bytes Font.Write / WritePDF produce
+func t1wLine(o *suiteOut, font *type1.Font, fmtName string) {
+	if len(font.Glyphs) > 60 {
+		return
+	}
+	verb := map[string]string{"pfa": "pfa", "pfb": "pfb", "binary": "bin", "noeexec": "noeexec", "pdf": "pdf"}[fmtName]
+	line := "t1w " + verb + " " + fontSpec(font)
+	res := "error"
+	if fmtName == "pdf" {
+		var buf bytes.Buffer
+		l1, l2, err := func() (a, b int, err error) {
+			defer func() {
+				if r := recover(); r != nil {
+					err = fmt.Errorf("panic")
+				}
+			}()
+			return font.WritePDF(&buf)
+		}()
+		if err == nil {
+			res = fmt.Sprintf("ok %s %d %d", hx(buf.Bytes()), l1, l2)
+		}
+	} else {
+		var format type1.FileFormat
+		for _, ff := range allFormats {
+			if formatName(ff) == fmtName {
+				format = ff
+			}
+		}
+		data, err, pan := writeFont(font, format)
+		if err == nil && pan == "" {
+			res = "ok " + hx(data)
+		}
+	}
+	o.emit(line, res, true)
+}
+
 func t1writeCase(o *suiteOut, line string) {
 	f := strings.Split(line, " ")
 	font, integer, format := fontFromCase(f)
+	t1wLine(o, font, f[3])
 	if f[3] == "pdf" {
 		var buf bytes.Buffer
 		var l1, l2 int
@@ -312,6 +359,9 @@ func suiteT1write(o *suiteOut, r *rng, tier string, n int) {
 	for i := 0; i < nr; i++ {
 		seed := r.next() % 1000000007
 		kind := pick(r, []string{"int", "frac"})
+		if i == 0 || i%100 == 99 {
+			kind = "bigint"
+		}
 		for _, ff := range []string{"pfa", "pfb", "binary", "noeexec", "pdf"} {
 			t1writeCase(o, fmt.Sprintf("t1write %d %s %s", seed, kind, ff))
 			o.count("format " + ff)
